@@ -490,3 +490,43 @@ def k7(prog):
         findings.append({"key": key, "where": prog.rel(f["file"]) + ":" + f["l"].split(":")[-1],
                          "msg": "%s: `-a X` must pass X itself as one string (it equals `--a '\"X\"'` only with every special character of X quoted)" % bad, "detail": None})
     return inst, findings
+
+
+def k4b(prog):
+    """the error_message overload that the per-input handlers call, interpreted from source for every (-s given?, verbosity in {0,-1}):
+    it records the error (sets the flag it is handed) exactly when verbosity >= 0 - whether or not -s silences the text - and it returns
+    std::cerr exactly when -s is not given."""
+    from cxxobj import CxxEvaluator, Obj, Sym
+    from absint import Thrown
+    inst, findings = [], []
+    setters = [f for f in prog.funcs.values() if f["n"] == "error_message" and f.get("body") is not None
+               and any(p["t"].replace(" ", "") == "bool&" for p in f["params"])]
+    if len(setters) != 1:
+        raise Broken("expected exactly one error_message overload taking the error flag by reference, found %d" % len(setters))
+    f = setters[0]
+    ps = f["params"]
+    if [p["t"].replace(" ", "") for p in ps] != ["bool", "int", "bool&"]:
+        raise Broken("error_message has an unexpected signature %s" % [p["t"] for p in ps])
+    bad = []
+    for no_messages in (False, True):
+        for verbosity in (0, -1):
+            for before in (False, True):
+                ev = CxxEvaluator({"ctor:std::basic_ofstream<char>": lambda ev_, o, a: Obj("sink"),
+                                   "ctor:std::basic_ofstream<char, std::char_traits<char>>": lambda ev_, o, a: Obj("sink")}, {}, prog=prog)
+                try:
+                    r = ev.call(f, None, [no_messages, verbosity, before])
+                except Thrown as x:
+                    raise Broken("error_message throws on the abstract inputs: %s" % x)
+                after = dict.get(ev._last_env, ps[2]["id"])
+                want = before or verbosity >= 0
+                is_cerr = isinstance(r, Sym) and "cerr" in str(getattr(r, "name", r))
+                if bool(after) != want:
+                    bad.append("with -s %s and verbosity %d the error flag goes from %s to %s (expected %s): the exit status would not be 2 although an execution raised an error"
+                               % ("given" if no_messages else "absent", verbosity, before, after, want))
+                if is_cerr == no_messages:
+                    bad.append("with -s %s the message goes to %s" % ("given" if no_messages else "absent", "std::cerr" if is_cerr else "a sink"))
+    key = "K4b:error_message"
+    inst.append((key, {"combinations": 8}))
+    if bad:
+        findings.append({"key": key, "where": "dwgrep/" + f["l"], "msg": "; ".join(bad[:2]), "detail": bad})
+    return inst, findings
